@@ -280,8 +280,8 @@ func cEval(e *cEnv, x SExpr) any {
 			}
 			return false
 		}
-		if m := e.w.macroFor(id.Name, nil); m != nil && !m.Rec {
-			if e.depth > 30 {
+		if m := e.w.macroFor(id.Name, nil); m != nil && !m.Ufn {
+			if e.depth > 60 {
 				cfail("macro recursion")
 			}
 			n := &cEnv{w: e.w, names: map[string]any{}, strs: e.strs, maxInt: e.maxInt, depth: e.depth + 1}
